@@ -844,6 +844,10 @@ class _SimpleParameterizedType(_ParameterizedType):
         buf.write(pack(len(items)))
         inner_proto = max(3, protocol_version)
         for item in items:
+            if item is None and protocol_version >= 3:
+                # a null element is a length of -1 (a length of 0 is an empty value)
+                buf.write(pack(-1))
+                continue
             itembytes = subtype.to_binary(item, inner_proto)
             buf.write(pack(len(itembytes)))
             buf.write(itembytes)
@@ -914,12 +918,14 @@ class MapType(_ParameterizedType):
             raise TypeError("Got a non-map object for a map value")
         inner_proto = max(3, protocol_version)
         for key, val in items:
-            keybytes = key_type.to_binary(key, inner_proto)
-            valbytes = value_type.to_binary(val, inner_proto)
-            buf.write(pack(len(keybytes)))
-            buf.write(keybytes)
-            buf.write(pack(len(valbytes)))
-            buf.write(valbytes)
+            for subtype, item in ((key_type, key), (value_type, val)):
+                if item is None and protocol_version >= 3:
+                    # a null element is a length of -1 (a length of 0 is an empty value)
+                    buf.write(pack(-1))
+                    continue
+                itembytes = subtype.to_binary(item, inner_proto)
+                buf.write(pack(len(itembytes)))
+                buf.write(itembytes)
         return buf.getvalue()
 
 
